@@ -45,3 +45,19 @@ package main
 //@ func ti.preload
 //@   nobody
 //@   between[C18] evaluationLoop evaluationLoop allow getParser,ApplyParserFlags state ti,ti/base,ti/eval,ti/eval/method_evaluator,ti/context,ti/builtin,ti/cmd except MD:map[string]any,MV:map[string]any
+
+//@ # ---- C24 / C22: every method has its own signature entry ----
+//@ # The signature table is keyed by frame, class, method and the class-method marker, kept apart by
+//@ # a separator no name contains: `A#bc` and `Ab#c` (or `f` as a class method and an instance method
+//@ # called `fstatic`) never overwrite each other, so no defined method drops out of the navigator,
+//@ # the completion list or the hover signatures.  (Overloads of configured methods - frame Builtin -
+//@ # get a formatted suffix, which is outside this clause.)
+//@ spec sigKey(f, c, m, s) = f + "\x00" + c + "\x00" + m + ite(s, "\x00static", "")
+//@ func ti.appendSignature
+//@   sitesonly
+//@   inline 3 1
+//@   # (the key is computed from the article before the signature text is rendered; rendering gets a
+//@   # pointer to the method type, so the clause at the table write speaks about frame and class only)
+//@   callsite[C24] SignatureKey a_frame == frame && a_class == class && a_method == methodT.method && a_isStatic == isStatic
+//@   mapwrite[C24] base.TSignatures strings.HasPrefix(key, frame + "\x00" + class + "\x00") || frame == "Builtin"
+//@   witness site:mapwrite.1#0 "class A\n  def bc\n    1\n  end\nend\nclass Ab\n  def c\n    2\n  end\nend\ndef run1\n  x = A.new\n  x.bc\nend\ndef run2\n  y = Ab.new\n  y.c\nend\n" args "--llm-nav --target=bc" expect-not "## A.bc"
